@@ -20,7 +20,7 @@ def settings_of(opts):
     return {"formatting": {"indentSize": opts["indent"], "alignAmounts": opts["align"], "minAlignmentColumn": opts["mincol"]}}
 
 
-def gen_valid(run, nrandom, fams=("decimals", "options"), caps=None):
+def gen_valid(run, nrandom, fams=("decimals", "options", "quoted"), caps=None):
     out = []
     for fam in fams:
         r = run.tlc("Format", fcfg(fam), workers=16, timeout=2400)
